@@ -42,7 +42,7 @@ enum : uint8_t {
     HS_MESSAGE_HASH = 254
 };
 enum : uint8_t { CT_CCS = 20, CT_ALERT = 21, CT_HANDSHAKE = 22, CT_APPDATA = 23 };
-enum : uint16_t { GROUP_SECP256R1 = 0x0017, GROUP_X25519 = 0x001d };
+enum : uint16_t { GROUP_SECP256R1 = 0x0017, GROUP_SECP384R1 = 0x0018, GROUP_SECP521R1 = 0x0019, GROUP_X25519 = 0x001d };
 enum : uint16_t { SIG_RSA_PKCS1_SHA256 = 0x0401, SIG_ECDSA_SECP256R1_SHA256 = 0x0403, SIG_RSA_PSS_RSAE_SHA256 = 0x0804 };
 
 // which keys protect a record
@@ -94,6 +94,11 @@ struct Step {
     bool empty_certificate = false; // M_CERTIFICATE: empty certificate_list
     uint16_t sig_scheme = 0;        // M_CERTIFICATE_VERIFY: SignatureScheme (0 = Config / by key type)
     Bytes transcript_hash;          // M_CERTIFICATE_VERIFY / M_FINISHED: sign / MAC this value instead of the real transcript hash
+    // hello overrides
+    uint16_t group = 0;             // M_HELLO_RETRY_REQUEST: selected_group (0 = Config::group); M_SERVER_HELLO: group of the key_share (0 = by the client's shares)
+    uint16_t cipher_suite = 0;      // M_HELLO_RETRY_REQUEST / M_SERVER_HELLO: cipher_suite field (0 = 0x1301; the puppet's record protection stays AES-128-GCM/SHA-256)
+    Bytes body_override;            // any handshake message: send this body instead of the built one (the step keeps the semantics of msg: key schedule, transcript, epoch)
+    bool use_body_override = false; // (set it to send an empty body)
     Step() {}
     explicit Step(int m, int k = EP_AUTO) : msg(m), keys(k) {}
 };
